@@ -228,8 +228,17 @@ def r2_chunks(report, repo, sc_cfg, send_node):
                  f.qualname, 'remainder-assigned', st,
                  'the remainder replaces data')
     w = core.calls_in(lp, name='self._transport.write')
-    ok = len(w) == 1 and any(s is w[0].args[0] for s in sent) and \
-        lib.stmt_index(lp.body, w[0]) < lib.stmt_index(lp.body, st)
+    ok = len(w) == 1 and len(sent) == 1
+    if ok:
+      # what is written is the head slice, taken before data is advanced
+      # (written at once, or kept in a local first)
+      wargs = lib.resolved(f, w[0].args[0])
+      cut = core.enclosing_stmt(sent[0])
+      ok = any(x is sent[0] for x in wargs) and \
+          lib.stmt_index(lp.body, cut) < lib.stmt_index(lp.body, st) or (
+              cut is st and False)
+      ok = ok or (any(x is sent[0] for x in wargs) and cut is not st and
+                  lib.stmt_index(lp.body, cut) <= lib.stmt_index(lp.body, st))
     report.check(ok, rule, f.qualname, 'send-then-advance', lp,
                  'each chunk is written before data is advanced')
 
